@@ -59,9 +59,9 @@ APIS = ["text", "pages", "fp_text", "fp_xml"]
 def minimums(tier: str) -> Dict[str, int]:
     if tier == "quick":
         return {"evaluations": 4000, "distinct": 150, "calls_compared": 4000, "fingerprint_checks": 4000, "interleaved_pages": 300,
-                "seen:docs_used": 26, "page_at_a_time_calls": 300, "caching_off_calls": 800}
+                "seen:docs_used": 28, "page_at_a_time_calls": 300, "caching_off_calls": 800}
     return {"evaluations": 120000, "distinct": 4000, "calls_compared": 120000, "fingerprint_checks": 120000, "interleaved_pages": 20000,
-            "seen:docs_used": 26, "page_at_a_time_calls": 9000, "caching_off_calls": 25000}
+            "seen:docs_used": 28, "page_at_a_time_calls": 9000, "caching_off_calls": 25000}
 
 
 # --------------------------------------------------------------------------
@@ -165,6 +165,36 @@ def build_pool() -> List[Dict[str, Any]]:
         jd.set(jcat, {"Type": N("Catalog"), "Pages": jpg})
         jd.trailer["Root"] = jcat
         add("japan1-" + mode, jd.build(), "cmap")
+    # a page that leaves non-default text state behind (Tc, Tz, TL, Ts), followed by pages relying on the defaults
+    cd = Doc()
+    cf = cd.add(font_widths(name="Carry", first=32, widths=[500] * 95, subtype="TrueType", encoding=N("WinAnsiEncoding")))
+    ccat, cpg = cd.alloc(), cd.alloc()
+    ck = []
+    for content in (b"BT /F1 12 Tf 6 Tc 150 Tz 20 TL 3 Ts 30 200 Td (Hello) Tj ET", b"BT /F1 12 Tf 30 200 Td (World) Tj T* (again) Tj ET",
+                    b"BT 30 100 Td /F1 10 Tf (third page) Tj ET"):
+        ck.append(cd.add({"Type": N("Page"), "Parent": cpg, "MediaBox": [0, 0, 300, 300], "Resources": {"Font": {"F1": cf}},
+                          "Contents": cd.add(Stream({}, content))}))
+    cd.set(cpg, {"Type": N("Pages"), "Kids": ck, "Count": 3})
+    cd.set(ccat, {"Type": N("Catalog"), "Pages": cpg})
+    cd.trailer["Root"] = ccat
+    add("textstate-carry", cd.build(), "misc")
+    # one /Font resource dictionary mixing an indirect font reference and font dictionaries written inline
+    md = Doc()
+    mf1 = md.add(dict(font_widths(name="MixA", first=32, widths=[400] * 95, subtype="TrueType", encoding=N("WinAnsiEncoding"))))
+    inline2 = font_widths(name="MixB", first=32, widths=[700] * 95, subtype="TrueType",
+                          encoding={"Type": N("Encoding"), "BaseEncoding": N("WinAnsiEncoding"), "Differences": [65, N("x"), N("y"), N("z")]})
+    inline3 = dict(font_widths(name="MixC", first=32, widths=[900] * 95, subtype="TrueType", encoding=N("WinAnsiEncoding")))
+    inline3["ToUnicode"] = md.add(Stream({}, _tounicode([(65, "\u0416")], 1)))
+    mcat, mpg = md.alloc(), md.alloc()
+    mk = []
+    for fonts in ({"F1": mf1, "F2": inline2, "F3": inline3}, {"F2": inline2, "F1": mf1}):
+        cont = b"BT 14 TL 30 250 Td " + b" ".join(b"/%s 12 Tf (ABC) Tj T*" % k.encode() for k in fonts) + b" ET"
+        mk.append(md.add({"Type": N("Page"), "Parent": mpg, "MediaBox": [0, 0, 300, 300], "Resources": {"Font": dict(fonts)},
+                          "Contents": md.add(Stream({}, cont))}))
+    md.set(mpg, {"Type": N("Pages"), "Kids": mk, "Count": 2})
+    md.set(mcat, {"Type": N("Catalog"), "Pages": mpg})
+    md.trailer["Root"] = mcat
+    add("fonts-indirect-and-inline", md.build(), "tounicode")
     # a base encoding name pdfminer has no table for (valid PDF: MacExpertEncoding) with Differences
     add("macexpert-diff", _simple_doc(dict(helv, Encoding={"Type": N("Encoding"), "BaseEncoding": N("MacExpertEncoding"),
                                                            "Differences": [65, N("Z"), N("Y"), 32, N("underscore")]}), t2).build(), "enc:StandardEncoding")
